@@ -450,6 +450,70 @@ def x86_getmant(a, imm, w):
     return (rs << (w - 1)) | (be << mb) | fbits
 
 
+def _rint_q(q, how):
+    """round the rational q to an integer: trunc floor ceil roundeven"""
+    neg = q < 0
+    aq = -q if neg else q
+    f = aq.numerator // aq.denominator
+    rem = aq - f
+    if how == "trunc":
+        n = f
+    elif how == "floor":
+        n = f + (1 if (neg and rem) else 0)
+    elif how == "ceil":
+        n = f + (1 if (not neg and rem) else 0)
+    else:
+        n = f + (1 if (rem > Fraction(1, 2) or (rem == Fraction(1, 2) and (f & 1))) else 0)
+    return -n if neg else n
+
+
+_IMM_RC = {0: "RN", 1: "RD", 2: "RU", 3: "RZ"}
+_RC_HOW = {"RN": "roundeven", "RD": "floor", "RU": "ceil", "RZ": "trunc"}
+
+
+def x86_rndscale(a, imm, w, mode="RN"):
+    """VRNDSCALE: 2^-M * round_to_integer(2^M * x), M = imm[7:4]; rounding imm[1:0], or MXCSR.RC when imm[2];
+    NaN -> QNaN(src); +-inf, +-0 unchanged; a zero result keeps the sign of the source (SDM RoundToIntegerSP)"""
+    x = decode(a, w)
+    if x[0] == "nan":
+        return _quiet(a, w)
+    if x[0] in ("inf", "zero"):
+        return a
+    M = (imm >> 4) & 15
+    rc = mode if imm & 4 else _IMM_RC[imm & 3]
+    q = x[1]
+    if M and _exponent(q) + M > FMT[w][2]:
+        return a                    # already integral at that scale (2^M * x overflows; SDM returns the source)
+    n = _rint_q(q * (1 << M), _RC_HOW[rc])
+    if n == 0:
+        return zero(1 if q < 0 else 0, w)
+    return encode(Fraction(n, 1 << M), w, "RZ")
+
+
+def x86_reduce(a, imm, w, mode="RN"):
+    """VREDUCE: x - 2^-M * round_to_integer(2^M * x) (SDM ReduceArgument and the special-case table):
+    NaN -> QNaN(src); +-inf -> +0.0; a zero source or an exactly zero difference -> +0.0, except -0.0 when
+    rounding down"""
+    x = decode(a, w)
+    if x[0] == "nan":
+        return _quiet(a, w)
+    if x[0] == "inf":
+        return zero(0, w)
+    M = (imm >> 4) & 15
+    rc = mode if imm & 4 else _IMM_RC[imm & 3]
+    zs = 1 if rc == "RD" else 0
+    if x[0] == "zero":
+        return zero(zs, w)
+    q = x[1]
+    if M and _exponent(q) + M > FMT[w][2]:
+        return zero(zs, w)
+    n = _rint_q(q * (1 << M), _RC_HOW[rc])
+    d = q - Fraction(n, 1 << M)
+    if d == 0:
+        return zero(zs, w)
+    return encode(d, w, rc)
+
+
 def x86_scalef(a, b, w, mode="RN"):
     """VSCALEF: a * 2^floor(b), rounded once in the current mode; NaN operands propagate (first source
     first); (0, +inf) and (inf, -inf) give the QNaN indefinite"""
